@@ -28,7 +28,7 @@ func init() {
 					"and at 262143..1.2 M elements (5 M thorough), one per block; (b) exhaustive enumeration of all histories up to a length bound over {Add,Push,Pop,PopLast} for preallocated sizes 0..4, " +
 					"(c) PRNG histories of 20..300 ops with phase-switching op mixes, (d) long-lived queues: one instance carries 300 000 (1.2 M thorough) operations with its length wandering between 0 and a few hundred. After EVERY op: Each with read-only calls (Slice, Peek, Front, Len, Each) made from inside its loop body - before the monitor reads anything else -, Len, IsEmpty, Front, Slice (and scribbling over the returned slice), Each (with early stop), Peek(n) for all n in [-Len-2, Len+1] and for offsets far out of range whose low 8..62 bits look like a valid offset. " +
 					"distinct = distinct (constructor, history) hashes; non-trivial = the history contained at least one wrap of the ring indices or a regrow while head > 0 (seen through the VerifState hook)",
-				Required:     []string{"rotate_then_grow_add", "rotate_then_grow_push", "backward_wrap_push", "forward_wrap_add", "pop_to_empty", "steps", "large_capacity_scenarios", "element_type_checks", "sparse_observation_histories", "concurrent_instance_histories", "long_lived_queue_runs", "very_large_queues", "shared_reader_rounds"},
+				Required:     []string{"rotate_then_grow_add", "rotate_then_grow_push", "backward_wrap_push", "forward_wrap_add", "pop_to_empty", "steps", "large_capacity_scenarios", "element_type_checks", "sparse_observation_histories", "concurrent_instance_histories", "long_lived_queue_runs", "very_large_queues", "shared_reader_rounds", "fill_then_drain_scenarios"},
 				Exhaustive:   true,
 				Assumptions:  []string{"reference model: Go slice with append/prepend/pop semantics", "hook queue.VerifState used for reach counters only, never for verdicts"},
 				CoverPkgs:    []string{"github.com/creachadair/mds/queue", "github.com/creachadair/mds/slice"},
@@ -761,6 +761,40 @@ func runC07(c *fw.Ctx) {
 		}
 		c.Add("very_large_queues", 1)
 		c.Max("max:queue_elements", int64(capy))
+	}
+
+	// (a3) fill-then-drain: a queue preallocated with c slots (c around 1024,
+	// 2048, 4096 and arbitrary sizes in between) is filled to c/4-1..c/4+1,
+	// c/2-1..c/2+2 and c-1..c elements and drained from the front, from the back
+	// or alternately, with constant-time checks on every step: a buffer that
+	// gives memory back while shrinking does so at exact fill levels
+	if c.Begin(1<<23 + 200 + c.Block) {
+		caps := []int{1023, 1024, 1025, 1100, 1400, 2047, 2048, 2049, 3000, 4095, 4096, 4097, 5000, 8192, 10000, 16384}
+		capy := caps[c.Block%len(caps)]
+		for _, fill := range []int{capy/4 - 1, capy / 4, capy/4 + 1, capy/2 - 1, capy / 2, capy/2 + 1, capy/2 + 2, capy - 1, capy} {
+			for drain := 0; drain < 3; drain++ {
+				ops := make([]c07op, 0, 2*fill+8)
+				for i := 0; i < fill; i++ {
+					ops = append(ops, qAdd)
+				}
+				for i := 0; i < fill; i++ {
+					switch drain {
+					case 0:
+						ops = append(ops, qPop)
+					case 1:
+						ops = append(ops, qPopLast)
+					default:
+						ops = append(ops, []c07op{qPop, qPopLast}[i%2])
+					}
+				}
+				ops = append(ops, qAdd, qPush, qPop)
+				okRun, pv, stack := fw.Try(func() { c07runMode(c, capy, ops, true, false) })
+				if !okRun {
+					c.FailKind("panic", map[string]any{"ctor": capy, "fill": fill, "phase": "fill then drain"}, "panic: %v\n%s", pv, stack)
+				}
+				c.Add("fill_then_drain_scenarios", 1)
+			}
+		}
 	}
 
 	// (d) long-lived queues: one instance carries 300 000 (1.2 M thorough)
